@@ -50,7 +50,7 @@ func checkC03(c *Ctx) {
 	c.Rule("C03.R3", "counter discipline: ss.count is incremented only in sealPacketLocked after Seal on the success path; sealPacketLocked is called only from Handle.send between ss.m.Lock and Unlock and returns a copy of the reused buffer (E1 + E4)")
 	c.Rule("C03.R4", "write chunking covers the buffer: the loop in Handle.Write starts at offset 0, steps by the chunk width, bounds each chunk by len(b), propagates WriteMsg errors and reports the bytes actually sent (induction shape on the SSA loop)")
 	c.Rule("C03.R5", "nothing secret in clear: the plaintext parameter of sealPacketLocked flows only into Seal; only header constants, session id, counter and Seal output are written to the packet buffer; EncryptSNI writes only duplex.Encrypt output (def-use)")
-	c.Rule("C03.R6", "replay-filter geometry: the window, shift and masks that Check and Mark apply to the counter are mutually consistent and identical in both (see C14.R1/R2): a block recycled by Mark lies wholly below the window, so an authentic datagram cannot be delivered twice (constants of the SSA form)")
+	c.Rule("C03.R6", "replay-filter geometry: the window, shift and masks that Check and Mark apply to the counter are mutually consistent and identical in both (see C14.R1/R2): a block recycled by Mark lies wholly below the window, and Mark zeroes only the slots of blocks above the old top (see C14.R3), so an authentic datagram cannot be delivered twice (constants of the SSA form + E2)")
 	c.Rule("C03.R7", "receive capacity: the buffers Client.listen and the Serve receive goroutine hand to ReadMsgUDP are at least as long as the largest datagram the sender can produce (WriteMsg's length guard + the framing overhead of PlaintextLen): a shorter buffer truncates, the packet fails authentication and an accepted message is lost (constants of the SSA form + E1 facts)")
 	c.Decides("ordering of replay check, authentication, marking and delivery; provenance of packet bytes; chunk arithmetic of Write")
 	c.NotDecided("at-most-once as a function of the window algorithm (C14); delivery on a faithful network beyond chunk arithmetic; behaviour of SANSE (C12)")
@@ -60,6 +60,7 @@ func checkC03(c *Ctx) {
 	c03R3(c)
 	c03R4(c)
 	ringRule(c, "C03.R6", "C03.R6")
+	ringClearRule(c, "C03.R6")
 	c03R7(c)
 	_ = P
 }
